@@ -2,7 +2,7 @@
    migrate dry src dst ts is the copy loop over the paired tasks of the name-mode and the parameter-mode
    chain (m_src: <task dir>/<config name>.<ext>, m_dst: <task dir>/<key>.<ext>). *)
 From Coq Require Import String Ascii List Bool Arith ZArith.
-From TC Require Import PyStr Value Dict Repr Param Config Key Chain World Eval Migration MigrationProofs MigTwiceProofs.
+From TC Require Import PyStr Value Dict Repr Param Config Key Chain World Eval Migration MigrationProofs MigTwiceProofs MigDotsProofs.
 Import ListNotations.
 
 (* every result that exists in name mode has a result at its key location afterwards ... *)
@@ -88,3 +88,19 @@ Example C20_second_migration_hypothesis_satisfiable :
   (forall t t', In t [t1; t2] -> In t' [t1; t2] -> ~ In (m_src t) (dir_paths (m_dir t'))) /\
   dget (lit "g/b/0123.json") (snd (migrate false src [] [t1; t2])) = Some (FValue (VInt 1%Z)).
 Proof. exact second_migration_example. Qed.
+
+(* the side condition holds for the task pairs migrate_to_parameter_mode builds when no task slug holds a dot and every
+   result is a file with an extension (JSON, pickle, ...): a source name then holds a dot, and no directory mkdirs
+   visits does.  For directory results (no extension) it stays a premise of the theorem above. *)
+Theorem C20_second_migration_of_a_config : forall olds rc objs classes ts dry src dst,
+  pair_tasks olds rc objs classes = inl ts ->
+  (forall ot, In ot olds -> ~ In dot (ot_slug ot) /\ extension (ot_kind ot) <> None) ->
+  snd (migrate dry (fst (migrate false src dst ts)) (snd (migrate false src dst ts)) ts) = snd (migrate false src dst ts).
+Proof. exact second_migration_of_a_config. Qed.
+Print Assumptions C20_second_migration_of_a_config.
+
+Theorem C20_file_results_are_not_directories : forall ts,
+  (forall t, In t ts -> ~ In dot (m_dir t)) -> (forall t, In t ts -> In dot (m_src t)) ->
+  forall t t', In t ts -> In t' ts -> ~ In (m_src t) (dir_paths (m_dir t')).
+Proof. exact file_results_are_not_dirs. Qed.
+Print Assumptions C20_file_results_are_not_directories.
